@@ -161,6 +161,8 @@ def case(ctx, rng, idx):
     matrix_only = rng.random() < 0.35
     labs_lab = gen.labels(rng, 4)
     labs_mat = gen.labels(rng, 4, matrix=True)
+    if any(isinstance(x, bool) for x in labs_lab):
+        labs_mat = [x + 2 for x in labs_mat]        # True == 1 and False == 0 as dict keys: keep the two label sets disjoint
 
     def new_model(tn=None):
         tn = tn or rng.choice(tnames)
@@ -262,7 +264,7 @@ def case(ctx, rng, idx):
         # operands a Matrix model cannot hold must raise KeyError (non-integer labels)
         bad_labels = False
         if mat and okind in ("model", "dict"):
-            bkeys = [k for k in b if any(not isinstance(x, int) or isinstance(x, bool) or x < 0 for x in k)]
+            bkeys = [k for k in b if any(not isinstance(x, int) or x < 0 for x in k)]
             if op in ("mul", "rmul", "imul"):
                 bad_labels = bool(bkeys) and len(a) > 0
             else:
